@@ -458,7 +458,9 @@ func ExtremeFamilies(r *rand.Rand, g func(*rand.Rand) string, n int, accept func
 		if r.Intn(3) == 0 {
 			x = runs[r.Intn(len(runs))] // any run, the first (an epoch, a major number) included
 		}
-		for _, e := range append([]string{"0", "1"}, extremes...) {
+		// Two lettered values as well: where the run is a prerelease identifier,
+		// numbers of every size must all sort below them.
+		for _, e := range append([]string{"0", "1", "alpha", "aaaaaaaaaaaaaaaaaaaaaaaa"}, extremes...) {
 			t := s[:x[0]] + e + s[x[1]:]
 			if seen[t] {
 				continue
